@@ -513,12 +513,31 @@ class Interp:
                         return (EnumMember(c.name, name, val),)
                     if isinstance(expr, ast.Call) and ast.unparse(expr.func) == 'field':
                         return None
+                    if isinstance(expr, (ast.Dict, ast.List, ast.Set)) or (
+                            isinstance(expr, ast.Call) and ast.unparse(expr.func) in ('dict', 'list', 'set', 'defaultdict')):
+                        return (self.class_level_state(c, name, expr),)
                     return (self.eval(expr, env),)
             else:
                 m = self.models.libclass_attr(self, c, name, instance, clsref or ClsRef(ci.key, ci))
                 if m is not None:
                     return m
         return None
+
+    def class_level_state(self, ci, name, expr):
+        """a mutable container defined in a class body is shared by all instances and all calls in the process: one
+        persistent object per path whose initial content is arbitrary (earlier calls may have filled it)"""
+        cache = self.st.ghost.setdefault('class_state', {})
+        key = (ci.key, name)
+        if key not in cache:
+            st = self.st
+            st.assumptions_used.add('class-level mutable containers are process-wide state with arbitrary initial content')
+            if isinstance(expr, ast.Dict) or (isinstance(expr, ast.Call) and ast.unparse(expr.func) in ('dict', 'defaultdict')):
+                cache[key] = st.alloc('dict', map=SymMap.fresh(st, f'{ci.name}_{name}'))
+            elif isinstance(expr, ast.List) or (isinstance(expr, ast.Call) and ast.unparse(expr.func) == 'list'):
+                cache[key] = st.alloc('list', items=SymSeq.fresh(st, f'{ci.name}_{name}'))
+            else:
+                cache[key] = st.alloc('set', elems=SymSet.fresh(st, f'{ci.name}_{name}'))
+        return cache[key]
 
     def is_enum_class(self, ci):
         return any(isinstance(b, str) and b.split('.')[-1] == 'Enum' for b in self.repo.mro(ci))
@@ -668,9 +687,38 @@ class Interp:
             return Coroutine(fi, self_val, ca.args, ca.kwargs, ca.starmaps, fi.qualname)
         return self.inline_function(fi, self_val, ca)
 
+    KNOWN_DECORATORS = ('staticmethod', 'classmethod', 'property', 'dataclass', 'abc.abstractmethod', 'abstractmethod',
+                        'functools.wraps', 'dont_use_for_prod', 'cachedmethod', 'functools.lru_cache', 'lru_cache',
+                        'functools.cache', 'cache', 'contract')
+
+    def check_decorators(self, fi):
+        for d in fi.decorators:
+            head = d.split('(')[0]
+            if not any(head == k or head.endswith('.' + k) for k in self.KNOWN_DECORATORS):
+                raise Unsupported(f'decorator @{d} on {fi.qualname} has no model')
+
+    def memoised_call(self, fi, self_val, ca):
+        """functools.lru_cache / cache: the result is a function of the arguments only, shared by every caller in the
+        process (no fresh object per call, no re-execution)"""
+        st = self.st
+        if ca.kwargs or ca.starmaps:
+            raise Unsupported(f'memoised call of {fi.qualname} with keyword arguments')
+        args = ([self_val] if self_val is not None else []) + list(ca.args)
+        self.st.assumptions_used.add('functools.lru_cache: the decorated function is evaluated at most once per argument '
+                                     'tuple in the process; later calls return the stored object')
+        f = z3.Function(f'memo_{fi.qualname}', *([PyV] * len(args) + [PyV]))
+        res = f(*[lift(x, st) for x in args]) if args else z3.Const(f'memo_{fi.qualname}', PyV)
+        st.emit('memoised_call', fn=fi.qualname, args=args, result=res)
+        return lower(res, st)
+
     def inline_function(self, fi, self_val, ca):
         if self.depth > self.MAX_DEPTH:
             raise Unsupported(f'inline depth exceeded at {fi.qualname}')
+        self.check_decorators(fi)
+        if any(d.split('(')[0].split('.')[-1] in ('lru_cache', 'cache') for d in fi.decorators):
+            return self.memoised_call(fi, self_val, ca)
+        memo = any(d.startswith('cachedmethod') for d in fi.decorators)
+        n_eff0 = len(self.st.effects)
         module_env = Env({}, None, fi, module=fi.module, cls=fi.cls)
         if fi.is_static:
             self_val = None
@@ -687,6 +735,16 @@ class Interp:
         finally:
             self.depth -= 1
             self.call_stack.pop()
+            if memo:
+                # @cachedmethod is treated as transparent; that is only sound if the body reads nothing but its key and
+                # run-immutable structure: no read of the run's storage
+                reads = [e.fn for e in self.st.effects[n_eff0:] if e.kind == 'call' and e.fn.split('.')[0] in ('DAGNodeStorage', 'HiddenDict')]
+                caller = self.call_stack[-1] if self.call_stack else fi.qualname
+                if reads:
+                    self.st.oblige_fail(f'{caller}#memoised[{fi.qualname}]-depends-only-on-its-key-and-run-immutable-structure',
+                                        f'the memoised function reads run state: {sorted(set(reads))}')
+                else:
+                    self.st.oblige(f'{caller}#memoised[{fi.qualname}]-depends-only-on-its-key-and-run-immutable-structure', True)
 
     def call_closure(self, cl, ca):
         if cl.is_async:
@@ -1038,6 +1096,12 @@ class Interp:
         if not specs:
             c = self.contracts.get(fi.key)
             specs = c.loops if c is not None else None
+        if not specs and self.verifying is not None:
+            # a loop that was moved into an uncontracted helper keeps the invariant written for it (matched by the
+            # text of the iterated expression)
+            c = self.contracts.get(self.verifying)
+            text_ = ast.unparse(s.iter) if isinstance(s, ast.For) else ast.unparse(s.test)
+            specs = [sp for sp in (c.loops if c is not None else []) if sp.text is not None and sp.text == text_]
         if not specs:
             return None
         # ordinal among loops of the same kind in the function, in source order
